@@ -4,7 +4,8 @@ from hypothesis import strategies as st
 
 import gen_const
 
-LINE_DELTAS = [0, 0, 1, 1, 2, -1, 126, 127, 128, 129, -126, -127, -128, -129, 253, 254, 255, 256, 257, -253, -256, -257, 1000, -1000]
+LINE_DELTAS = [0, 0, 1, 1, 2, -1, 126, 127, 128, 129, -126, -127, -128, -129, 253, 254, 255, 256, 257, -253, -254, -255, -256, -257,
+               381, 382, -381, -382, -383, -509, 1000, -1000]
 BLOCK_SIZES = [1, 1, 2, 3, 4, 7]
 FILL_COUNTS = [40, 84, 85, 86, 126, 127, 128, 129, 130, 254, 255, 256, 257, 258, 300]
 NAMES = ["n0", "n1", "n2", "x", "y"]
